@@ -88,7 +88,21 @@ type kdcBehaviour struct {
 	delay  time.Duration // the KDC thinks before it answers
 }
 
+// kdcV6: the next fake KDC listens on the IPv6 loopback address (its krb5.conf entry is a bracketed literal).
+var kdcV6 bool
+
+// haveV6 reports whether the IPv6 loopback address can be bound here.
+func haveV6() bool {
+	l, err := net.Listen("tcp6", "[::1]:0")
+	if err != nil {
+		return false
+	}
+	l.Close()
+	return true
+}
+
 type fakeKDC struct {
+	v6          bool
 	reserved    []int
 	reservedUDP *net.UDPConn
 	port        int
@@ -104,19 +118,25 @@ type fakeKDC struct {
 }
 
 func startFakeKDC(tcp, udp kdcBehaviour) *fakeKDC {
+	v6 := kdcV6 && tcp.kind != "refuse"
+	kdcV6 = false
+	tcpNet, udpNet, ip := "tcp4", "udp4", net.IPv4(127, 0, 0, 1)
+	if v6 {
+		tcpNet, udpNet, ip = "tcp6", "udp6", net.IPv6loopback
+	}
 	for attempt := 0; attempt < 50; attempt++ {
 		// find a port free for both protocols
-		l, err := net.Listen("tcp4", "127.0.0.1:0")
+		l, err := net.Listen(tcpNet, net.JoinHostPort(ip.String(), "0"))
 		if err != nil {
 			continue
 		}
 		port := l.Addr().(*net.TCPAddr).Port
-		uc, err := net.ListenUDP("udp4", &net.UDPAddr{IP: net.IPv4(127, 0, 0, 1), Port: port})
+		uc, err := net.ListenUDP(udpNet, &net.UDPAddr{IP: ip, Port: port})
 		if err != nil {
 			l.Close()
 			continue
 		}
-		k := &fakeKDC{port: port, tcp: tcp, udp: udp, ln: l, uc: uc}
+		k := &fakeKDC{v6: v6, port: port, tcp: tcp, udp: udp, ln: l, uc: uc}
 		// a refusing side keeps its port reserved (a freed port can be handed to the proxy's own
 		// client socket as its local port, which would then talk to itself): TCP is bound but does not
 		// listen, UDP is bound and connected elsewhere, so both answer "refused" for ever
@@ -137,7 +157,7 @@ func startFakeKDC(tcp, udp kdcBehaviour) *fakeKDC {
 		if udp.kind == "refuse" {
 			uc.Close()
 			k.uc = nil
-			if c, err := net.DialUDP("udp4", &net.UDPAddr{IP: net.IPv4(127, 0, 0, 1), Port: port}, &net.UDPAddr{IP: net.IPv4(127, 0, 0, 1), Port: 9}); err == nil {
+			if c, err := net.DialUDP(udpNet, &net.UDPAddr{IP: ip, Port: port}, &net.UDPAddr{IP: ip, Port: 9}); err == nil {
 				k.reservedUDP = c
 			}
 		} else {
@@ -250,13 +270,21 @@ func (k *fakeKDC) stop() {
 	k.mu.Unlock()
 }
 
+// addr is the KDC's entry in krb5.conf.
+func (k *fakeKDC) addr() string {
+	if k.v6 {
+		return fmt.Sprintf("[::1]:%d", k.port)
+	}
+	return fmt.Sprintf("127.0.0.1:%d", k.port)
+}
+
 func writeKrb5Conf(path string, realms map[string][]*fakeKDC, def string) {
 	var sb strings.Builder
 	fmt.Fprintf(&sb, "[libdefaults]\n  default_realm = %s\n  dns_lookup_kdc = false\n  dns_lookup_realm = false\n\n[realms]\n", def)
 	for name, ks := range realms {
 		fmt.Fprintf(&sb, "  %s = {\n", name)
 		for _, k := range ks {
-			fmt.Fprintf(&sb, "    kdc = 127.0.0.1:%d\n", k.port)
+			fmt.Fprintf(&sb, "    kdc = %s\n", k.addr())
 		}
 		sb.WriteString("  }\n")
 	}
@@ -427,6 +455,10 @@ func runC20(r *Run) {
 		}
 	}
 	nf += len(sweep)
+	v6ok := haveV6()
+	if !v6ok {
+		r.Note("no IPv6 loopback address here: KDCs configured as IPv6 literals were not exercised")
+	}
 	for i := 0; i < nf; i++ {
 		nk := 1 + rng.Intn(3)
 		if i < len(scripted) {
@@ -478,6 +510,7 @@ func runC20(r *Run) {
 			}
 			slowBudget--
 		}
+		kdcV6 = v6ok && i%2 == 1 // every other time the second realm's KDC is configured as an IPv6 literal
 		other := startFakeKDC(kdcBehaviour{kind: "reply", body: []byte("reply-from-the-other-realm")}, kdcBehaviour{kind: "refuse"})
 		conf := filepath.Join(dir, fmt.Sprintf("k%d.conf", i))
 		writeKrb5Conf(conf, map[string][]*fakeKDC{"REALM.A": ks, "corp.Test": {other}}, "REALM.A")
@@ -499,6 +532,9 @@ func runC20(r *Run) {
 		realm := []string{"", "REALM.A", "corp.Test", "UNKNOWN.REALM"}[rng.Intn(4)]
 		if rng.Intn(2) == 0 {
 			realm = ""
+		}
+		if other.v6 && i%4 == 1 && i >= len(scripted)+len(sweep) {
+			realm = "corp.Test"
 		}
 		if i < len(scripted)+len(sweep) { // the scripted combinations are for the default realm's KDCs and a regular message
 			realm = []string{"", "REALM.A"}[i%2]
@@ -534,7 +570,7 @@ func runC20(r *Run) {
 		for _, k := range ks {
 			desc = append(desc, fmt.Sprintf("kdc:%d tcp=%s udp=%s", k.port, k.tcp.kind, k.udp.kind))
 		}
-		rep := fmt.Sprintf("realm A KDCs: %s; realm B: kdc:%d tcp=reply\nrequest: realm=%q kerberos message %d bytes (%s…)\nanswer: status %d in %v %s body %s…\n", strings.Join(desc, " | "), other.port, realm, len(data), hx(data[:min(len(data), 16)]), res.status, res.latency.Round(time.Millisecond), res.err, hx(res.body[:min(len(res.body), 40)]))
+		rep := fmt.Sprintf("realm A KDCs: %s; realm B: kdc %s tcp=reply\nrequest: realm=%q kerberos message %d bytes (%s…)\nanswer: status %d in %v %s body %s…\n", strings.Join(desc, " | "), other.addr(), realm, len(data), hx(data[:min(len(data), 16)]), res.status, res.latency.Round(time.Millisecond), res.err, hx(res.body[:min(len(res.body), 40)]))
 		r.Count(fmt.Sprintf("f:%s:%d:%s", strings.Join(desc, "|"), len(data), realm))
 		r.Dist(fmt.Sprintf("forward:kdcs=%d", nk))
 		if i < 3 {
